@@ -31,7 +31,7 @@ ASSUMPTIONS = ["Floyd-Warshall over the permitted arcs is the reference for reac
                "edge polylines start/end exactly at the positions of their stored source/target nodes (generator invariant)",
                "which of several optimal routes is returned is left free; only an existing consistent edge assignment is required"]
 EXHAUSTIVE = {"quick": "all 4 161 multigraphs with <= 3 nodes and <= 2 edges over weights {0,1,2} x 3 orientations, every ordered pair s != t",
-              "thorough": "all 104 626 multigraphs with <= 3 nodes and <= 3 edges over weights {0,1,2} x 3 orientations, every ordered pair s != t"}
+              "thorough": "all 104 643 multigraphs with <= 3 nodes and <= 3 edges over weights {0,1,2} x 3 orientations, every ordered pair s != t"}
 CASE_LIMIT_S = 30.0
 
 NONE_IFF = "path.none_iff_unreachable"
